@@ -242,6 +242,17 @@ inline void orient(EdgeList &g, int mode) {
     for (size_t i = 0; i < g.e.size(); ++i) if (mode == 1 || (i & 1)) std::swap(g.e[i].first, g.e[i].second);
 }
 
+// Order in which the edges are handed to add_edge (it decides adjacency-list order, edge iteration order and the relative
+// heap addresses of the edge nodes): 0 = as generated (lexicographic for G(n)), 1 = reversed, 2 = odd positions first, then even.
+inline int &edge_order_mode() { static int m = 0; return m; }
+inline void order_edges(EdgeList &g) {
+    int mode = edge_order_mode();
+    if (mode == 0) return;
+    if (mode == 1) { std::reverse(g.e.begin(), g.e.end()); return; }
+    std::vector<std::pair<int, int>> o; for (size_t i = 1; i < g.e.size(); i += 2) o.push_back(g.e[i]); for (size_t i = 0; i < g.e.size(); i += 2) o.push_back(g.e[i]);
+    g.e = o;
+}
+
 // ---- union-find ----
 struct UF {
     std::vector<int> p;
